@@ -84,9 +84,12 @@ UNITS = [
               findings=[dict(id='cs-de-drho', refuted='props/C16_eos_refuted.v', pending=None,
                              what='carnahan_starling_eos.de_drho (called with (rho, P) by every residual function) is not the derivative of e (gamma=5/3,b=1 model witness rho=1/2,P=2)',
                              replay=replay_cs)]),
-    flow.Unit('residual-jacobians', groups=[], props=[], oracle=EO.oracle, always_oracle=True,
-              note='residual functions (try/except, in-place array stores, abstract EOS objects) are outside the translated subset: Jacobians, inverse Jacobians and convergence are checked on the real code only',
-              findings=[dict(id='pressure-residual-jacobian-sign', refuted=None, pending=None,
+    flow.Unit('residual-jacobians', groups=['residuals'], props=['props/C16_residuals.v'], custom_corr=__import__('residual_corr').unit_corr, oracle=EO.oracle,
+              always_oracle=True,
+              note='components of F, entries of F_prime, hand-coded 2x2 determinants and adjugates regenerated from residual_functions.py with the EOS values as free '
+                   'variables: every Jacobian entry is the partial derivative of the matching residual component for an ARBITRARY EOS, 2x2 inverses are inverses (theorems); '
+                   'Newton iteration, numpy.linalg.inv for the 3x3 classes and convergence are checked on the real code only',
+              findings=[dict(id='pressure-residual-jacobian-sign', refuted='props/C16_residuals_refuted.v', pending=None,
                              what='pressure_noh_residual.F_prime[2,0] has the wrong sign when P_0 != 0 (ic density=1,velocity=-1,pressure=0.5,symmetry=0; state (4,1.5,0.5))',
                              replay=replay_pressure_jac),
                         dict(id='blackbox-default-guess-spurious-root', refuted=None, pending=None,
@@ -96,7 +99,7 @@ UNITS = [
 
 
 def run(report, tier, rng):
-    report.assumptions += ['Newton iteration, numpy.linalg.inv and the residual classes are exercised on the real code only (class C)']
+    report.assumptions += ['Newton iteration, numpy.linalg.inv (3x3 inverses) and convergence are exercised on the real code only (class C); the residual components and Jacobians are regenerated with the EOS calls as free variables (call shape checked by the translator)']
     flow.run_units(report, UNITS, tier, rng)
 
 
